@@ -279,6 +279,10 @@ def pack(fmt, *vals):
             raise _struct.error(f"'{ch}' format requires {lo} <= number <= {hi}")
         if ch.islower():
             v = symx.ite(v < 0, v + (1 << bits), v) if _is_sym(v) else (v + (1 << bits) if v < 0 else v)
+            if _is_sym(v):
+                # range-checked above and folded: the value is in [0, 2^bits) on this path; tell the
+                # interval tracker so the shifts below are accepted
+                v = SymInt(v.e, v.w, 0, (1 << bits) - 1)
         for i in reversed(range(n)):
             out.append((v >> (8 * i)) & 0xFF)
     if vi != len(vals):
